@@ -2,6 +2,7 @@ package node
 
 import (
 	"bufio"
+	"errors"
 	"fmt"
 	"io"
 	"log"
@@ -12,6 +13,8 @@ import (
 	"github.com/chzyer/readline"
 	"github.com/paulsonkoly/calc/combinator"
 	"github.com/paulsonkoly/calc/flags"
+	"github.com/paulsonkoly/calc/lexer"
+	"github.com/paulsonkoly/calc/types/token"
 	"github.com/paulsonkoly/calc/vm"
 )
 
@@ -61,30 +64,65 @@ type Parser interface {
 
 // Loop is the repl-loop.
 func Loop(r lineReader, p Parser, vm *vm.Type, doOut bool) {
-	blocksOpen := 0
-	quotesOpen := 0
-	bracketsOpen := 0
-	input := ""
+	input := ""   // lines of the statement read so far
+	pending := "" // lines of a string literal that is still open
 	sep := ""
+	open := 0 // blocks and array literals still open
 
 	for {
 		line, err := r.read()
-		if err != nil { // io.EOF
+		if err != nil && line == "" { // io.EOF
 			break
 		}
+		line = strings.TrimSuffix(line, "\n")
 
-		blocksOpen += strings.Count(line, "{") - strings.Count(line, "}")
-		quotesOpen += strings.Count(line, "\"") - strings.Count(line, "\\\"")
-		bracketsOpen += strings.Count(line, "[") - strings.Count(line, "]")
 		input += sep + line
 		sep = "\n"
 
-		if blocksOpen == 0 && quotesOpen%2 == 0 && bracketsOpen == 0 {
+		// only string literals span lines, the rest is scanned line by line
+		delta, unterminated := scan(pending + line)
+		if unterminated {
+			pending += line + "\n"
+			continue
+		}
+		pending = ""
+		open += delta
+
+		if open <= 0 {
 			processInput(input, p, vm, doOut)
 			sep = ""
 			input = ""
+			open = 0
 		}
 	}
+
+	if input != "" { // let the parser report what is missing
+		processInput(input, p, vm, doOut)
+	}
+}
+
+// scan counts how many more blocks and array literals text opens than it
+// closes, and tells if it ends within a string literal.
+func scan(text string) (int, bool) {
+	open := 0
+	l := lexer.NewLexer(text)
+
+	for l.Next() {
+		if l.Err != nil {
+			// any other error is left for the parser to report
+			return open, errors.Is(l.Err, lexer.ErrUnterminated)
+		}
+
+		if l.Token.Type == token.NotSticky {
+			switch l.Token.Value {
+			case "{", "[":
+				open++
+			case "}", "]":
+				open--
+			}
+		}
+	}
+	return open, false
 }
 
 func processInput(input string, p Parser, vm *vm.Type, doOut bool) {
